@@ -4,6 +4,7 @@ import Pko.Model.Remote
 import Pko.Model.RemoteNs
 import Pko.Model.Slices
 import Pko.Model.Converge
+import Pko.Model.Handover
 /-! Shared part of the controller-level ("sys") drivers: scenario decoding, running the
 ObjectSet controller model over a schedule, canonical printing — the format of
 `harness/verifsys/sys.go`. -/
@@ -30,6 +31,12 @@ structure JSet where
   revision : Nat
   finCached : Bool
   pkgLabel : String
+  later : Option Bool := none       -- handover stream: created by a `rollout` step
+  deriving FromJson, Repr
+
+/-- `ODSpec` of od.go: the sets are the revisions of one ObjectDeployment. -/
+structure JOD where
+  paused : Bool
   deriving FromJson, Repr
 
 structure JSetEnv where
@@ -71,6 +78,7 @@ structure Scn where
   store : Option (List JSObj)
   steps : Option (List JStep)
   rounds : Option Nat := none       -- C10 only
+  od : Option JOD := none           -- handover stream only
   deriving FromJson, Repr
 
 def toLifecycle : String → Lifecycle
@@ -89,7 +97,7 @@ def toPhase (p : JPhase) : PhaseSpec :=
 
 /-- ObjectSets are created first (uid-1, uid-2, …; rv 1, 2, …), then the managed objects. -/
 def initSys (s : Scn) : Sys :=
-  let sets := (s.sets.getD [])
+  let sets := (s.sets.getD []).filter fun js => !(js.later.getD false)   -- (`later` sets: see `rollout`)
   let n := sets.length
   let osets : List OSet := (sets.zipIdx).map fun (js, i) =>
     { kind := setKindOf s, ns := nsOf s, name := js.name, uid := s!"uid-{i+1}", gen := 1, rv := i + 1,
@@ -121,7 +129,12 @@ def initSys (s : Scn) : Sys :=
   let store := store.set (Pko.Model.RemoteNs.nsKey "ns1") (some Pko.Model.RemoteNs.nsObj)
   { w := { store := store, writes := 0, env := [], events := [] }
     sets := fun nm => osets.find? (·.name = nm)
-    setEvents := [], freed := [], setWrites := 0, setEnv := [], slices := slices }
+    setEvents := [], freed := [], setWrites := 0, setEnv := [], slices := slices,
+    -- the ObjectDeployment's template is the one of the newest revision present at the start (od.go `newOD`)
+    od := { paused := (s.od.map (·.paused)).getD false,
+            template := match sets.getLast? with
+              | some js => if s.od.isSome then (js.phases.getD []).map toPhase else []
+              | none => [] } }
 
 /-- `phase.Slices` per phase of the ObjectSet called `name` (spec, static). -/
 def sliceRefs (s : Scn) (name : String) : List (List String) :=
@@ -178,7 +191,7 @@ def lifeStr : Lifecycle → String
   | .active => "Active" | .paused => "Paused" | .archived => "Archived"
 
 def osetStr (o : OSet) : String :=
-  s!"{o.name}\{g={o.gen},d={b01 o.deleting},f={if o.finCached then "c" else ""}{if o.finOrphan then "o" else ""},life={lifeStr o.lifecycle},rev={o.revision} conds=[{condsStr o.conds}] co=[{crefsStr o.controllerOf}] rp=[{rpStr o.remotePhases}]}"
+  s!"{o.name}\{g={o.gen},d={b01 o.deleting},f={if o.finCached then "c" else ""}{if o.finOrphan then "o" else ""},life={lifeStr o.lifecycle}{if o.pbp then "+pbp" else ""},rev={o.revision} conds=[{condsStr o.conds}] co=[{crefsStr o.controllerOf}] rp=[{rpStr o.remotePhases}]}"
 
 /-- (S1B) every key a managed object of the scenario can live under, in the order the store lists
 its objects (`Store.Snapshot`: sorted by kind / namespace / name) — the order the garbage
@@ -192,9 +205,56 @@ def gcKeys (s : Scn) (cfg : Cfg) : List Key :=
   let ks := (fromStore ++ fromSets).eraseDups
   (sortStrings (ks.map keyStr)).filterMap fun x => ks.find? (keyStr · == x)
 
+/-! ### The ObjectDeployment level (handover stream, od.go) -/
+
+/-- the ObjectSets of the namespace as `client.List` of the store returns them: sorted by name. -/
+def listingNames (scn : Scn) : List String := sortStrings ((scn.sets.getD []).map (·.name))
+
+/-- the writes of an ObjectDeployment pass as od.go prints them: what each `Update` leaves in
+`spec.lifecycleState` / the paused-by-parent annotation. -/
+def odEventsStr (names : List String) (s : Sys) (ws : List Pko.Model.Archive.Write) : String :=
+  let step (acc : Sys × List String) (w : Pko.Model.Archive.Write) : Sys × List String :=
+    let s' := Pko.Model.Handover.applyWrite names acc.1 w
+    let n := names.getD w.id "?"
+    let ev := match w with
+      | .delete _ => s!"X {n} ok"
+      | _ => match s'.sets n with
+        | some o => s!"U {n} {lifeStr o.lifecycle} pbp={b01 o.pbp} ok"
+        | none => s!"U {n} ? !NotFound"
+    (s', acc.2 ++ [ev])
+  ";".intercalate (ws.foldl step (s, [])).2
+
+/-- `od`: one pass of the ObjectDeployment controller (`Pko.Model.Handover.odPass` = the model of
+property C08 (a), `Pko.Model.Archive.osr`, on the ObjectSets of the state). -/
+def odStep (scn : Scn) (s : Sys) : Sys × String :=
+  let names := listingNames scn
+  let (s', ws, err) := Pko.Model.Handover.odPass names s
+  (s', s!"O {if err then "err" else "ok"} | {odEventsStr names s ws}")
+
+/-- `rollout`: the user updates the ObjectDeployment's template and the ObjectSet of the new revision
+appears (uid / resourceVersion from the store-wide counters, like any object created later). -/
+def rolloutStep (scn : Scn) (name : String) (s : Sys) : Sys × String :=
+  match (scn.sets.getD []).find? (fun js => js.name = name && js.later.getD false) with
+  | none => (s, "BAD-STEP")
+  | some js =>
+    if (s.sets name).isSome then (s, "BAD-STEP")
+    else
+      let st := s.w.store
+      let o : OSet :=
+        { kind := setKindOf scn, ns := nsOf scn, name := js.name, uid := s!"uid-{st.nextUID}", gen := 1, rv := st.nextRV,
+          deleting := false, finCached := js.finCached, finOrphan := false, pkgLabel := js.pkgLabel,
+          lifecycle := toLifecycle js.lifecycle, phases := (js.phases.getD []).map toPhase,
+          previous := js.previous.getD [], revision := js.revision, conds := [], controllerOf := [], remotePhases := [] }
+      let s := { s with w := { s.w with store := { st with nextUID := st.nextUID + 1, nextRV := st.nextRV + 1 } },
+                        od := { s.od with template := o.phases } }
+      (s.setSet name (some o), "-")
+
 /-- one schedule step; returns the output token of the step. -/
 def stepModel (scn : Scn) (cfg : Cfg) (st : JStep) (s : Sys) : Sys × String :=
   match st.op with
+  | "od" => if scn.od.isSome then odStep scn s else (s, "BAD-STEP")
+  | "odPause" => if scn.od.isSome then ({ s with od := { s.od with paused := st.value == "true" } }, "-") else (s, "BAD-STEP")
+  | "rollout" => if scn.od.isSome then rolloutStep scn st.set s else (s, "BAD-STEP")
   | "reconcile" =>
     let s0 : Sys := { s with w := { s.w with writes := 0, env := (st.env.getD []).map toEnv, events := [], phaseEvents := [], applied := [] },
                              setEvents := [], setWrites := 0, setEnv := (st.setEnv.getD []).map toSetEnv }
